@@ -30,6 +30,14 @@ def atom_to_str(v):
     return base + ("", "\u00e9", "\u00df\u00df")[v % 3]
 
 
+SPECIAL_FLOATS = {1: float("nan"), 2: float("inf"), 3: float("-inf"), 4: -0.0}
+
+
+def _bits(x):
+    import struct
+    return struct.pack("<d", x)
+
+
 class ConcreteViolation(Exception):
     def __init__(self, label, detail=None):
         super().__init__(label)
@@ -81,8 +89,20 @@ class SymCtx(Ctx):
         """a float64 whose bit pattern matters (persistence properties)"""
         return self.eng.sym_real(name)
 
+    def float_bits(self, name):
+        """a float64 of any class: a finite value (symbolic real) or - solver-enumerated - NaN, +inf, -inf, -0.0
+        (concrete floats: they only flow through persistence code; arithmetic on them is outside the real-number model)"""
+        cls = int(self.eng.sym_int(name + "#cls", 0, 4))
+        return self.eng.sym_real(name) if cls == 0 else SPECIAL_FLOATS[cls]
+
     def same(self, a, b):
         """exact equality (bit pattern for floats)"""
+        if isinstance(a, float) and isinstance(b, float):
+            return _bits(a) == _bits(b)
+        if isinstance(a, float) and (a != a or a in (math.inf, -math.inf) or _bits(a) == _bits(-0.0)):
+            return False
+        if isinstance(b, float) and (b != b or b in (math.inf, -math.inf) or _bits(b) == _bits(-0.0)):
+            return False
         return a == b
 
     def int(self, name, lo=None, hi=None):
@@ -173,10 +193,16 @@ class ConcreteCtx(Ctx):
             x = math.nextafter(x, math.inf)
         return x
 
+    def float_bits(self, name):
+        cls = int(self.values.get(name + "#cls", 0) or 0)
+        return self.real_bits(name) if cls == 0 else SPECIAL_FLOATS[cls]
+
     def same(self, a, b):
         try:
             if isinstance(a, float) and isinstance(b, float) and math.isnan(a) and math.isnan(b):
                 return True
+            if isinstance(a, float) and isinstance(b, float) and a == 0.0 and b == 0.0:
+                return _bits(a) == _bits(b)
             return bool(a == b)
         except Exception:
             return False
